@@ -194,6 +194,37 @@ def near_smt2(axioms, ob, depth):
     return _fix_decl_order(s.to_smt2())
 
 
+def skolem_smt2(axioms, ob):
+    """For a goal `forall v. B(v)`: the query with the goal skolemised by hand (fresh constants c for v) and every universally quantified
+    HYPOTHESIS whose bound variables have the sorts of c additionally instantiated at c.  Instances of hypotheses are consequences of them, so
+    an `unsat` answer is a proof; this supplies the instantiation a trigger-based solver cannot find when the goal contains no term that
+    matches the hypothesis' trigger (e.g. "every index in range is a key" against "index i in range is a key of the result").  None if the
+    goal is not universally quantified."""
+    g = ob.goal
+    if not (z3.is_quantifier(g) and g.is_forall()):
+        return None
+    n = g.num_vars()
+    sk = [z3.Const(f"sk!{g.var_name(i)}!{i}", g.var_sort(i)) for i in range(n)]
+    body = z3.substitute_vars(g.body(), *reversed(sk))
+    extra = []
+    for h in ob.hyps:
+        if z3.is_quantifier(h) and h.is_forall() and h.num_vars() == 1:
+            for c in sk:
+                if h.var_sort(0) == c.sort():
+                    extra.append(z3.substitute_vars(h.body(), c))
+
+    class _O:
+        hyps, goal, expect_sat = list(ob.hyps) + extra, body, False
+
+    s = z3.Solver()
+    for a in relevant_axioms(axioms, _O):
+        s.add(a)
+    for h in _O.hyps:
+        s.add(h)
+    s.add(z3.Not(body))
+    return _fix_decl_order(s.to_smt2())
+
+
 def to_smt2_full(axioms, ob):
     s = z3.Solver()
     for a in relevant_axioms(axioms, ob):
@@ -219,10 +250,12 @@ def _fix_decl_order(text):
     return "\n".join(rest[:k] + sorts + rest[k:])
 
 
-def _solve_z3(text, timeout_ms, want_model):
+def _solve_z3(text, timeout_ms, want_model, auto_config=True):
     ctx = z3.Context()
     s = z3.Solver(ctx=ctx)
     s.set("timeout", timeout_ms)
+    if not auto_config:
+        s.set("smt.auto_config", False)     # z3's static feature analysis picks a configuration in which some trigger-driven proofs diverge
     try:
         s.from_string(text)
     except z3.Z3Exception as e:
@@ -267,11 +300,15 @@ def _work(job):
     verdict, info = _solve_z3(text, min(2500, timeout_ms), True)
     solver = "z3-5.1(api)"
     if verdict in ("unknown", "error") and not expect_sat:
+        nv, _ = _solve_z3(text, min(6000, timeout_ms), False, auto_config=False)
+        if nv == "unsat":
+            return idx, "unsat", "(z3 with smt.auto_config=false)", solver, time.time() - t0
+    if verdict in ("unknown", "error") and not expect_sat:
         # the goal from its near neighbourhood only (hypotheses within 1, 2, 3 hops): fewer quantified facts for the solver to chase
         for d, ntext in near:
             nv, _ = _solve_z3(ntext, min(4000, timeout_ms), False)
             if nv == "unsat":
-                return idx, "unsat", f"(proved from the hypotheses within {d} hop(s) of the goal)", solver, time.time() - t0
+                return idx, "unsat", (f"(proved from the hypotheses within {d} hop(s) of the goal)" if d > 0 else "(proved without the sequence axioms)" if d == 0 else "(proved with the hypotheses instantiated at the goal's skolem constants)"), solver, time.time() - t0
     if verdict in ("unknown", "error") and not expect_sat:
         v2, i2 = _solve_cli(["/usr/bin/cvc5", "--strings-exp", f"--tlimit={timeout_ms}"], "(set-logic ALL)\n" + text, timeout_ms / 1000)
         if v2 == "unsat":
@@ -318,6 +355,19 @@ def discharge(axioms, obls, timeout_ms=10000, procs=None):
             continue
         rest = rest_smt2(axioms, ob)
         near = []
+        if not ob.expect_sat:
+            # stage 0: the query WITHOUT the sequence-theory axioms (fewer hypotheses: an `unsat` answer is still a proof); many goals about
+            # maps, arithmetic and spec functions need none of them, and the solver chases them for the whole budget otherwise
+            from . import seqs as _seqs
+            sq = {a.get_id() for a in _seqs.all_axioms()}
+            bare = [a for a in axioms if a.get_id() not in sq]
+            if len(bare) < len(axioms):
+                near.append((0, to_smt2(bare, ob)))
+                ob._cone = None
+        if not ob.expect_sat:
+            sk_text = skolem_smt2(axioms, ob)
+            if sk_text is not None:
+                near.append((-1, sk_text))
         if not ob.expect_sat and len(ob.hyps) > 8:
             for d in (1, 2, 3):
                 nt = near_smt2(axioms, ob, d)
